@@ -1,6 +1,7 @@
 import ScionVerif.Model.Acl
 import ScionVerif.Model.HopPattern
 import ScionVerif.Spec.Regex
+import ScionVerif.Spec.HopPred
 /-!
 # Lemmas for C16 (path policy languages)
 
@@ -322,8 +323,55 @@ theorem closure_fuel_irrelevant (step : Nat → List Nat) (B : Nat) (hb : ∀ x 
 
 /-! ## 3. the matcher and the denoted language -/
 
-/-- "hop `h` satisfies predicate `p`" -/
-def Sat (p : Pred) (h : Hop) : Prop := p.matches h = true
+/-- the model's data as the spec's data (field by field) -/
+def Ifs.toSpec : Ifs → Spec.HopInterfaces
+  | .any => .any
+  | .either i => .either i
+  | .both a b => .both a b
+def Pred.toSpec (p : Pred) : Spec.HopPredicate := ⟨p.isd, p.asn, p.ifs.toSpec⟩
+def Hop.toSpec (h : Hop) : Spec.PolicyHop := ⟨h.isd, h.asn, h.ingress, h.egress⟩
+
+/-- **atom semantics of the hop-pattern language and of ACL entries: the declarative specification**
+    `Spec.predMatches` (Spec/HopPred.lean), not the model's matcher -/
+def Sat (p : Pred) (h : Hop) : Prop := Spec.predMatches p.toSpec h.toSpec
+
+theorem isdMatches_iff (a b : Nat) : isdMatches a b = true ↔ Spec.idMatches a b := by
+  have : ISD_WILDCARD = 0 := rfl
+  simp [isdMatches, Spec.idMatches, this, or_assoc]
+theorem asnMatches_iff (a b : Nat) : asnMatches a b = true ↔ Spec.idMatches a b := by
+  have : ASN_WILDCARD = 0 := rfl
+  simp [asnMatches, Spec.idMatches, this, or_assoc]
+theorem ifaceMatches_iff (a b : Nat) : ifaceMatches a b = true ↔ Spec.ifMatches a b := by
+  have : IF_WILDCARD = 0 := rfl
+  simp [ifaceMatches, Spec.ifMatches, this]
+
+/-- **`HopPredicate::matches` = the specification**, for every predicate and every hop -/
+theorem pred_matches_iff (p : Pred) (h : Hop) : p.matches h = true ↔ Spec.predMatches p.toSpec h.toSpec := by
+  obtain ⟨isd, asn, ifs⟩ := p
+  simp only [Pred.matches, Bool.and_eq_true, Spec.predMatches, Pred.toSpec, Hop.toSpec, isdMatches_iff]
+  rw [and_assoc]
+  refine and_congr Iff.rfl (and_congr ?_ ?_)
+  · cases asn with
+    | none => simp
+    | some a => simp [asnMatches_iff]
+  · cases ifs with
+    | any => simp [Ifs.matches, Ifs.toSpec]
+    | either i => simp [Ifs.matches, Ifs.toSpec, ifaceMatches_iff]
+    | both a b => simp [Ifs.matches, Ifs.toSpec, ifaceMatches_iff]
+
+theorem sat_iff (p : Pred) (h : Hop) : Sat p h ↔ p.matches h = true := (pred_matches_iff p h).symm
+
+instance (p : Pred) (h : Hop) : Decidable (Sat p h) := decidable_of_iff _ (sat_iff p h).symm
+
+/-- the specification as a Boolean test (for the ACL spec, which takes a decidable `holds`) -/
+def satB (p : Pred) (h : Hop) : Bool := decide (Sat p h)
+
+theorem satB_eq : satB = Pred.matches := by
+  funext p h
+  simp only [satB]
+  cases hm : p.matches h
+  · exact decide_eq_false (fun hs => by rw [(sat_iff p h).mp hs] at hm; cases hm)
+  · exact decide_eq_true ((sat_iff p h).mpr hm)
 
 /-- the documented meaning of the operators: `|` union, `?` zero or one, `+` one or more, `*` zero or more -/
 def denote : Expr → Regex Pred
@@ -408,7 +456,7 @@ theorem matchFrom_split (e : Expr) (hs : List Hop) :
         · simp only [hm, if_true, List.mem_singleton] at h
           obtain ⟨hlt, hx⟩ := List.getElem?_eq_some_iff.mp hget
           subst h
-          exact ⟨hlt, [x], ⟨x, rfl, hm⟩, by rw [List.drop_eq_getElem_cons hlt, hx]; rfl⟩
+          exact ⟨hlt, [x], ⟨x, rfl, (sat_iff _ _).mpr hm⟩, by rw [List.drop_eq_getElem_cons hlt, hx]; rfl⟩
         · simp [hm] at h
     · rintro ⟨hq, w, ⟨x, rfl, hm⟩, hd⟩
       have hq' := split_pos hp hq hd
@@ -418,7 +466,7 @@ theorem matchFrom_split (e : Expr) (hs : List Hop) :
       simp only [List.singleton_append, List.cons.injEq] at hd
       have : hs[p]? = some x := by rw [List.getElem?_eq_getElem hlt, hd.1]
       simp only [this, hq']
-      have hm' : pr.matches x = true := hm
+      have hm' : pr.matches x = true := (sat_iff _ _).mp hm
       simp [hm']
   | or a b iha ihb =>
     intro p q hp
@@ -547,19 +595,19 @@ theorem matchPolicy_iff (es : List Expr) (hs : List Hop) :
 
 /-- a successful `parse_expr` consumes at least one token; the loop never gives tokens back -/
 theorem parse_consumes : ∀ fuel : Nat,
-    (∀ bp toks e rest, parseExpr fuel bp toks = .ok (e, rest) → rest.length < toks.length) ∧
-    (∀ bp e toks e' rest, parseLoop fuel bp e toks = .ok (e', rest) → rest.length ≤ toks.length) := by
+    (∀ bp toks e rest, parseExprU fuel bp toks = .ok (e, rest) → rest.length < toks.length) ∧
+    (∀ bp e toks e' rest, parseLoopU fuel bp e toks = .ok (e', rest) → rest.length ≤ toks.length) := by
   intro fuel
   induction fuel with
-  | zero => constructor <;> intros <;> simp_all [parseExpr, parseLoop]
+  | zero => constructor <;> intros <;> simp_all [parseExprU, parseLoopU]
   | succ fuel ih =>
     obtain ⟨ihE, ihL⟩ := ih
     constructor
     · intro bp toks e rest h
       cases toks with
-      | nil => simp [parseExpr] at h
+      | nil => simp [parseExprU] at h
       | cons t ts =>
-        cases t <;> simp only [parseExpr] at h <;> try (simp at h; done)
+        cases t <;> simp only [parseExprU] at h <;> try (simp at h; done)
         · -- pred
           split at h
           · simp at h
@@ -577,9 +625,9 @@ theorem parse_consumes : ∀ fuel : Nat,
             · simp at h
     · intro bp e toks e' rest h
       cases toks with
-      | nil => simp [parseLoop] at h; simp [h]
+      | nil => simp [parseLoopU] at h; simp [h]
       | cons t ts =>
-        cases t <;> simp only [parseLoop] at h <;>
+        cases t <;> simp only [parseLoopU] at h <;>
           try (first
             | (simp only [Except.ok.injEq, Prod.mk.injEq] at h; rw [← h.2]; exact Nat.le_refl _)
             | (have := ihL _ _ _ _ _ h; simp; omega)
@@ -596,8 +644,8 @@ theorem parse_consumes : ∀ fuel : Nat,
 
 /-- with more fuel than tokens the recursion never runs out of fuel -/
 theorem parse_no_fuel_error : ∀ fuel : Nat,
-    (∀ bp toks, toks.length < fuel → parseExpr fuel bp toks ≠ .error .fuel) ∧
-    (∀ bp e toks, toks.length < fuel → parseLoop fuel bp e toks ≠ .error .fuel) := by
+    (∀ bp toks, toks.length < fuel → parseExprU fuel bp toks ≠ .error .fuel) ∧
+    (∀ bp e toks, toks.length < fuel → parseLoopU fuel bp e toks ≠ .error .fuel) := by
   intro fuel
   induction fuel with
   | zero => constructor <;> intros <;> omega
@@ -606,10 +654,10 @@ theorem parse_no_fuel_error : ∀ fuel : Nat,
     constructor
     · intro bp toks hlen
       cases toks with
-      | nil => simp [parseExpr]
+      | nil => simp [parseExprU]
       | cons t ts =>
         simp only [List.length_cons] at hlen
-        cases t <;> simp only [parseExpr] <;> try (simp; done)
+        cases t <;> simp only [parseExprU] <;> try (simp; done)
         · split
           · simp
           · exact ihL _ _ _ (by omega)
@@ -626,10 +674,10 @@ theorem parse_no_fuel_error : ∀ fuel : Nat,
             · simp
     · intro bp e toks hlen
       cases toks with
-      | nil => simp [parseLoop]
+      | nil => simp [parseLoopU]
       | cons t ts =>
         simp only [List.length_cons] at hlen
-        cases t <;> simp only [parseLoop] <;>
+        cases t <;> simp only [parseLoopU] <;>
           try (first
             | (exact ihL _ _ _ (by omega))
             | (simp; done))
@@ -643,16 +691,16 @@ theorem parse_no_fuel_error : ∀ fuel : Nat,
               have h1' := (parse_consumes fuel).1 _ _ _ _ h1
               exact ihL _ _ _ (by omega)
 
-theorem parseTop_no_fuel_error : ∀ (fuel : Nat) (toks : List Tok) (acc : List Expr),
-    toks.length < fuel → parseTop fuel toks acc ≠ .error .fuel := by
+theorem parseTopU_no_fuel_error : ∀ (fuel : Nat) (toks : List Tok) (acc : List Expr),
+    toks.length < fuel → parseTopU fuel toks acc ≠ .error .fuel := by
   intro fuel
   induction fuel with
   | zero => intros; omega
   | succ fuel ih =>
     intro toks acc hlen
-    have key : (match parseExpr (toks.length + 1) NO_BIND_POWER toks with
+    have key : (match parseExprU (toks.length + 1) NO_BIND_POWER toks with
         | .error e => (.error e : Except PErr (List Expr))
-        | .ok (e, rest) => parseTop fuel rest (e :: acc)) ≠ .error .fuel := by
+        | .ok (e, rest) => parseTopU fuel rest (e :: acc)) ≠ .error .fuel := by
       split
       · rename_i err h1
         intro h; injection h with h; subst h
@@ -661,39 +709,39 @@ theorem parseTop_no_fuel_error : ∀ (fuel : Nat) (toks : List Tok) (acc : List 
         have := (parse_consumes _).1 _ _ _ _ h1
         exact ih _ _ (by omega)
     cases toks with
-    | nil => simp [parseTop, parseExpr]
+    | nil => simp [parseTopU, parseExprU]
     | cons t ts =>
-      cases t <;> simp only [parseTop] <;> try exact key
+      cases t <;> simp only [parseTopU] <;> try exact key
       split <;> simp
 
 /-- a result other than "out of fuel" does not depend on the fuel -/
 theorem parse_fuel_succ : ∀ f : Nat,
-    (∀ bp toks, parseExpr f bp toks ≠ .error .fuel → parseExpr (f + 1) bp toks = parseExpr f bp toks) ∧
-    (∀ bp e toks, parseLoop f bp e toks ≠ .error .fuel → parseLoop (f + 1) bp e toks = parseLoop f bp e toks) := by
+    (∀ bp toks, parseExprU f bp toks ≠ .error .fuel → parseExprU (f + 1) bp toks = parseExprU f bp toks) ∧
+    (∀ bp e toks, parseLoopU f bp e toks ≠ .error .fuel → parseLoopU (f + 1) bp e toks = parseLoopU f bp e toks) := by
   intro f
   induction f with
-  | zero => constructor <;> intros <;> simp_all [parseExpr, parseLoop]
+  | zero => constructor <;> intros <;> simp_all [parseExprU, parseLoopU]
   | succ f ih =>
     obtain ⟨ihE, ihL⟩ := ih
     constructor
     · intro bp toks h
       cases toks with
-      | nil => simp [parseExpr]
+      | nil => simp [parseExprU]
       | cons t ts =>
-        cases t <;> try (simp [parseExpr]; done)
+        cases t <;> try (simp [parseExprU]; done)
         · -- pred
           rename_i s
-          simp only [parseExpr] at h ⊢
+          simp only [parseExprU] at h ⊢
           cases hp : parsePred s with
           | none => rfl
           | some p => simp only [hp] at h ⊢; exact ihL _ _ _ h
         · -- lparen
-          by_cases hI : parseExpr f NO_BIND_POWER ts = .error .fuel
-          · simp [parseExpr, hI] at h
-          · rw [parseExpr, ihE _ _ hI]
-            conv => rhs; rw [parseExpr]
-            simp only [parseExpr] at h
-            cases hr : parseExpr f NO_BIND_POWER ts with
+          by_cases hI : parseExprU f NO_BIND_POWER ts = .error .fuel
+          · simp [parseExprU, hI] at h
+          · rw [parseExprU, ihE _ _ hI]
+            conv => rhs; rw [parseExprU]
+            simp only [parseExprU] at h
+            cases hr : parseExprU f NO_BIND_POWER ts with
             | error e => rfl
             | ok v =>
               obtain ⟨e1, r1⟩ := v
@@ -705,35 +753,35 @@ theorem parse_fuel_succ : ∀ f : Nat,
                 exact ihL _ _ _ h
     · intro bp e toks h
       cases toks with
-      | nil => simp [parseLoop]
+      | nil => simp [parseLoopU]
       | cons t ts =>
-        cases t <;> try (simp [parseLoop]; done)
+        cases t <;> try (simp [parseLoopU]; done)
         · -- or
-          rw [parseLoop] at h
-          conv => lhs; rw [parseLoop]
-          conv => rhs; rw [parseLoop]
+          rw [parseLoopU] at h
+          conv => lhs; rw [parseLoopU]
+          conv => rhs; rw [parseLoopU]
           split
           · rfl
           · rename_i hbp
             simp only [hbp, if_false] at h
             generalize hbp' : (if OR_LEFT_TO_RIGHT then OR_BIND_POWER + 1 else OR_BIND_POWER) = bp' at h ⊢
-            by_cases hI : parseExpr f bp' ts = .error .fuel
+            by_cases hI : parseExprU f bp' ts = .error .fuel
             · simp [hI] at h
             · rw [ihE _ _ hI]
-              cases hr : parseExpr f bp' ts with
+              cases hr : parseExprU f bp' ts with
               | error e => rfl
               | ok v =>
                 obtain ⟨e1, r1⟩ := v
                 simp only [hr] at h ⊢
                 exact ihL _ _ _ h
         all_goals
-          rw [parseLoop] at h
-          conv => lhs; rw [parseLoop]
-          conv => rhs; rw [parseLoop]
+          rw [parseLoopU] at h
+          conv => lhs; rw [parseLoopU]
+          conv => rhs; rw [parseLoopU]
           exact ihL _ _ _ h
 
-theorem parseExpr_mono {f f' bp : Nat} {toks : List Tok} {r : Except PErr (Expr × List Tok)}
-    (h : parseExpr f bp toks = r) (hr : r ≠ .error .fuel) (hle : f ≤ f') : parseExpr f' bp toks = r := by
+theorem parseExprU_mono {f f' bp : Nat} {toks : List Tok} {r : Except PErr (Expr × List Tok)}
+    (h : parseExprU f bp toks = r) (hr : r ≠ .error .fuel) (hle : f ≤ f') : parseExprU f' bp toks = r := by
   obtain ⟨k, rfl⟩ := Nat.exists_eq_add_of_le hle
   induction k with
   | zero => exact h
@@ -741,8 +789,8 @@ theorem parseExpr_mono {f f' bp : Nat} {toks : List Tok} {r : Except PErr (Expr 
     have := ih (Nat.le_add_right _ _)
     rw [← Nat.add_assoc, (parse_fuel_succ (f + k)).1 bp toks (this ▸ hr), this]
 
-theorem parseLoop_mono {f f' bp : Nat} {e : Expr} {toks : List Tok} {r : Except PErr (Expr × List Tok)}
-    (h : parseLoop f bp e toks = r) (hr : r ≠ .error .fuel) (hle : f ≤ f') : parseLoop f' bp e toks = r := by
+theorem parseLoopU_mono {f f' bp : Nat} {e : Expr} {toks : List Tok} {r : Except PErr (Expr × List Tok)}
+    (h : parseLoopU f bp e toks = r) (hr : r ≠ .error .fuel) (hle : f ≤ f') : parseLoopU f' bp e toks = r := by
   obtain ⟨k, rfl⟩ := Nat.exists_eq_add_of_le hle
   induction k with
   | zero => exact h
@@ -752,18 +800,18 @@ theorem parseLoop_mono {f f' bp : Nat} {e : Expr} {toks : List Tok} {r : Except 
 
 /-- fuel-free reading of the parser: "`parse_expr(bp)` on `toks` returns `r`" -/
 def ParsesTo (bp : Nat) (toks : List Tok) (r : Except PErr (Expr × List Tok)) : Prop :=
-  ∃ f, parseExpr f bp toks = r ∧ r ≠ .error .fuel
+  ∃ f, parseExprU f bp toks = r ∧ r ≠ .error .fuel
 /-- "the left-denotation loop of `parse_expr(bp)`, entered with `e`, returns `r` on `toks`" -/
 def LoopsTo (bp : Nat) (e : Expr) (toks : List Tok) (r : Except PErr (Expr × List Tok)) : Prop :=
-  ∃ f, parseLoop f bp e toks = r ∧ r ≠ .error .fuel
+  ∃ f, parseLoopU f bp e toks = r ∧ r ≠ .error .fuel
 
 theorem ParsesTo.run {bp : Nat} {toks : List Tok} {r} (h : ParsesTo bp toks r) :
-    parseExpr (toks.length + 1) bp toks = r := by
+    parseExprU (toks.length + 1) bp toks = r := by
   obtain ⟨f, hf, hr⟩ := h
   have hnf := (parse_no_fuel_error (toks.length + 1)).1 bp toks (Nat.lt_succ_self _)
   rcases Nat.le_total f (toks.length + 1) with hle | hle
-  · exact parseExpr_mono hf hr hle
-  · have := parseExpr_mono rfl hnf hle
+  · exact parseExprU_mono hf hr hle
+  · have := parseExprU_mono rfl hnf hle
     rw [← this, hf]
 
 /-- **Renderings of an expression as tokens, with any amount of redundant parentheses.**
@@ -789,9 +837,9 @@ theorem loop_stops {bp : Nat} {e : Expr} {rest : List Tok} (h : NoPostfix rest)
     LoopsTo bp e rest (.ok (e, rest)) := by
   refine ⟨1, ?_, by simp⟩
   cases rest with
-  | nil => simp [parseLoop]
+  | nil => simp [parseLoopU]
   | cons t ts =>
-    cases t <;> simp_all [parseLoop, NoPostfix]
+    cases t <;> simp_all [parseLoopU, NoPostfix]
 
 /-- **Parsing a rendering = continuing with its expression** (continuation form). -/
 theorem renders_parse {top : Bool} {e : Expr} {ts : List Tok} (h : Renders top e ts) :
@@ -801,7 +849,7 @@ theorem renders_parse {top : Bool} {e : Expr} {ts : List Tok} (h : Renders top e
   induction h with
   | pred hp =>
     rintro bp rest r - ⟨f, hf, hr⟩
-    exact ⟨f + 1, by simp [parseExpr, hp, hf], hr⟩
+    exact ⟨f + 1, by simp [parseExprU, hp, hf], hr⟩
   | @paren top e ts _ ih =>
     rintro bp rest r - ⟨f, hf, hr⟩
     have inner : ParsesTo NO_BIND_POWER (ts ++ .rparen :: rest) (.ok (e, .rparen :: rest)) :=
@@ -809,21 +857,21 @@ theorem renders_parse {top : Bool} {e : Expr} {ts : List Tok} (h : Renders top e
         (loop_stops trivial (.inr (by simp)))
     obtain ⟨f1, hf1, hr1⟩ := inner
     refine ⟨max f f1 + 1, ?_, hr⟩
-    simp only [List.cons_append, List.append_assoc, List.nil_append, parseExpr]
-    rw [parseExpr_mono hf1 hr1 (Nat.le_max_right _ _)]
-    exact parseLoop_mono hf hr (Nat.le_max_left _ _)
+    simp only [List.cons_append, List.append_assoc, List.nil_append, parseExprU]
+    rw [parseExprU_mono hf1 hr1 (Nat.le_max_right _ _)]
+    exact parseLoopU_mono hf hr (Nat.le_max_left _ _)
   | optional _ ih =>
     rintro bp rest r - ⟨f, hf, hr⟩
     rw [List.append_assoc]
-    exact ih bp _ r (by simp) ⟨f + 1, by simpa [parseLoop] using hf, hr⟩
+    exact ih bp _ r (by simp) ⟨f + 1, by simpa [parseLoopU] using hf, hr⟩
   | oneOrMore _ ih =>
     rintro bp rest r - ⟨f, hf, hr⟩
     rw [List.append_assoc]
-    exact ih bp _ r (by simp) ⟨f + 1, by simpa [parseLoop] using hf, hr⟩
+    exact ih bp _ r (by simp) ⟨f + 1, by simpa [parseLoopU] using hf, hr⟩
   | zeroOrMore _ ih =>
     rintro bp rest r - ⟨f, hf, hr⟩
     rw [List.append_assoc]
-    exact ih bp _ r (by simp) ⟨f + 1, by simpa [parseLoop] using hf, hr⟩
+    exact ih bp _ r (by simp) ⟨f + 1, by simpa [parseLoopU] using hf, hr⟩
   | @or a b ta tb _ _ iha ihb =>
     rintro bp rest r htop ⟨f, hf, hr⟩
     obtain ⟨hbp, hnp⟩ := htop rfl
@@ -835,9 +883,9 @@ theorem renders_parse {top : Bool} {e : Expr} {ts : List Tok} (h : Renders top e
     obtain ⟨f1, hf1, hr1⟩ := hb
     refine ⟨max f f1 + 1, ?_, hr⟩
     have hlr : OR_LEFT_TO_RIGHT = true := by decide
-    simp only [List.cons_append, parseLoop, Nat.not_lt.mpr hbp, if_false, hlr, if_true]
-    rw [parseExpr_mono hf1 hr1 (Nat.le_max_right _ _)]
-    exact parseLoop_mono hf hr (Nat.le_max_left _ _)
+    simp only [List.cons_append, parseLoopU, Nat.not_lt.mpr hbp, if_false, hlr, if_true]
+    rw [parseExprU_mono hf1 hr1 (Nat.le_max_right _ _)]
+    exact parseLoopU_mono hf hr (Nat.le_max_left _ _)
   | operand _ ih =>
     rintro bp rest r - hl
     exact ih bp rest r (by simp) hl
@@ -872,7 +920,7 @@ def Follows : List Tok → Prop
     the tokens that follow it. -/
 theorem renders_parseExpr {top : Bool} {e : Expr} {ts : List Tok} (h : Renders top e ts)
     (rest : List Tok) (hrest : Follows rest) :
-    parseExpr ((ts ++ rest).length + 1) NO_BIND_POWER (ts ++ rest) = .ok (e, rest) := by
+    parseExprU ((ts ++ rest).length + 1) NO_BIND_POWER (ts ++ rest) = .ok (e, rest) := by
   apply ParsesTo.run
   apply renders_parse h
   · intro _
@@ -906,32 +954,32 @@ theorem RendersSeq.follows {es : List Expr} {tss : List Tok} (h : RendersSeq es 
   | nil => trivial
   | cons hr' _ => exact ((hr'.starts.append _).append _).follows
 
-theorem parseTop_step {f : Nat} {toks : List Tok} {acc : List Expr} (h : StartsOperand toks)
-    {e : Expr} {rest : List Tok} (hp : parseExpr (toks.length + 1) NO_BIND_POWER toks = .ok (e, rest)) :
-    parseTop (f + 1) toks acc = parseTop f rest (e :: acc) := by
+theorem parseTopU_step {f : Nat} {toks : List Tok} {acc : List Expr} (h : StartsOperand toks)
+    {e : Expr} {rest : List Tok} (hp : parseExprU (toks.length + 1) NO_BIND_POWER toks = .ok (e, rest)) :
+    parseTopU (f + 1) toks acc = parseTopU f rest (e :: acc) := by
   cases toks with
   | nil => exact absurd h (by simp [StartsOperand])
   | cons t ts =>
     cases t <;> simp only [StartsOperand] at h
     all_goals
-      simp only [parseTop, hp]
+      simp only [parseTopU, hp]
 
 theorem rendersSeq_parseTop {es : List Expr} {ts : List Tok} (h : RendersSeq es ts) :
     ∀ (f : Nat) (acc : List Expr), ts.length + 1 < f →
-      parseTop f (ts ++ [.eoi]) acc = .ok (acc.reverse ++ es) := by
+      parseTopU f (ts ++ [.eoi]) acc = .ok (acc.reverse ++ es) := by
   induction h with
   | nil =>
     intro f acc hf
     cases f with
     | zero => omega
-    | succ f => simp [parseTop]
+    | succ f => simp [parseTopU]
   | @cons top e ts es tss hr hs ih =>
     intro f acc hf
     cases f with
     | zero => omega
     | succ f =>
       have hfol := hs.follows
-      rw [List.append_assoc, parseTop_step (hr.starts.append _) (renders_parseExpr hr _ hfol)]
+      rw [List.append_assoc, parseTopU_step (hr.starts.append _) (renders_parseExpr hr _ hfol)]
       have hlen : 0 < ts.length := by
         have := hr.starts
         cases ts with
@@ -944,10 +992,170 @@ theorem rendersSeq_parseTop {es : List Expr} {ts : List Tok} (h : RendersSeq es 
     that renders the pattern `es` – with parentheses anywhere the grammar allows them – is parsed to
     exactly `es`; hence two renderings of the same pattern always parse to the same AST. -/
 theorem rendersSeq_parseTokens {es : List Expr} {ts : List Tok} (h : RendersSeq es ts) :
-    parseTokens (ts ++ [.eoi]) = .ok es := by
-  unfold parseTokens
+    parseTokensU (ts ++ [.eoi]) = .ok es := by
+  unfold parseTokensU
   rw [rendersSeq_parseTop h _ [] (by simp)]
   simp
+
+/-! ### the depth-limited parser (`MAX_EXPRESSION_DEPTH`) against the grammar -/
+
+/-- the limited parser's answer `r` agrees with the unlimited parser's answer `u`: either `r` is the depth
+    error, or both are the same error, or both succeed with the same expression and unread tokens, the tracked
+    depth being the depth of the expression and within the limit -/
+def Agrees (r : Except PErr ((Expr × Nat) × List Tok)) (u : Except PErr (Expr × List Tok)) : Prop :=
+  match r with
+  | .error (.tooDeep _) => True
+  | .error e => u = .error e
+  | .ok ((e, d), rest) => u = .ok (e, rest) ∧ d = e.depth ∧ e.depth ≤ MAX_EXPRESSION_DEPTH
+
+theorem depthExceeded_false {d : Nat} (h : depthExceeded d = false) : d ≤ MAX_EXPRESSION_DEPTH := by
+  simp only [depthExceeded, decide_eq_false_iff_not, Nat.not_lt] at h
+  exact h
+
+theorem Agrees.tooDeep (k : Nat) (u) : Agrees (.error (.tooDeep k)) u := trivial
+
+theorem pred_depth_ok : PRED_DEPTH = 1 ∧ 1 ≤ MAX_EXPRESSION_DEPTH := by decide
+
+/-- **The depth limit only ever adds the depth error**: on every token list, at every nesting level, the
+    limited parser either reports `tooDeep` or answers exactly as the parser without the limit. -/
+theorem parse_agrees : ∀ f : Nat,
+    (∀ n bp toks, Agrees (parseExpr f n bp toks) (parseExprU f bp toks)) ∧
+    (∀ n bp e d toks, d = e.depth → e.depth ≤ MAX_EXPRESSION_DEPTH →
+      Agrees (parseLoop f n bp e d toks) (parseLoopU f bp e toks)) := by
+  intro f
+  induction f with
+  | zero => constructor <;> intros <;> simp [parseExpr, parseLoop, parseExprU, parseLoopU, Agrees]
+  | succ f ih =>
+    obtain ⟨ihE, ihL⟩ := ih
+    constructor
+    · intro n bp toks
+      cases toks with
+      | nil => simp [parseExpr, parseExprU, Agrees]
+      | cons t ts =>
+        cases t <;> try (simp [parseExpr, parseExprU, Agrees]; done)
+        · -- pred
+          rename_i s
+          simp only [parseExpr, parseExprU]
+          cases hp : parsePred s with
+          | none => simp [Agrees]
+          | some p => exact ihL n bp (.pred p) PRED_DEPTH ts (by simp [Expr.depth, pred_depth_ok.1]) (by simpa [Expr.depth] using pred_depth_ok.2)
+        · -- lparen
+          simp only [parseExpr, parseExprU]
+          cases hx : depthExceeded (n + 1) with
+          | true => simp [Agrees]
+          | false =>
+            simp only [Bool.false_eq_true, if_false]
+            have h1 := ihE (n + 1) NO_BIND_POWER ts
+            cases hr : parseExpr f (n + 1) NO_BIND_POWER ts with
+            | error e =>
+              rw [hr] at h1
+              cases e <;> simp only [Agrees] at h1 ⊢ <;> simp [h1]
+            | ok v =>
+              obtain ⟨⟨e1, d1⟩, r1⟩ := v
+              rw [hr] at h1
+              simp only [Agrees] at h1
+              obtain ⟨hu, hd, hle⟩ := h1
+              simp only [hu]
+              cases r1 with
+              | nil => simp [Agrees]
+              | cons t2 r2 =>
+                cases t2 <;> try (simp [Agrees]; done)
+                exact ihL n bp e1 d1 r2 hd hle
+    · intro n bp e d toks hd hle
+      have post : ∀ (mk : Expr → Expr) (rest : List Tok), (∀ x, (mk x).depth = x.depth + 1) →
+          Agrees (if depthExceeded (d + 1) then .error (.tooDeep (rest.length + 1))
+                  else parseLoop f n bp (mk e) (d + 1) rest) (parseLoopU f bp (mk e) rest) := by
+        intro mk rest hmk
+        cases hx : depthExceeded (d + 1) with
+        | true => simp [Agrees]
+        | false =>
+          simp only [Bool.false_eq_true, if_false]
+          have := depthExceeded_false hx
+          exact ihL n bp (mk e) (d + 1) rest (by rw [hmk, hd]) (by rw [hmk, ← hd]; exact this)
+      cases toks with
+      | nil => simp [parseLoop, parseLoopU, Agrees, hd, hle]
+      | cons t ts =>
+        cases t <;> try (simp [parseLoop, parseLoopU, Agrees, hd, hle]; done)
+        · -- or
+          simp only [parseLoop, parseLoopU]
+          split
+          · simp [Agrees, hd, hle]
+          · cases hx : depthExceeded (n + 1) with
+            | true => simp [Agrees]
+            | false =>
+              simp only [Bool.false_eq_true, if_false]
+              generalize (if OR_LEFT_TO_RIGHT then OR_BIND_POWER + 1 else OR_BIND_POWER) = bp'
+              have h1 := ihE (n + 1) bp' ts
+              cases hr : parseExpr f (n + 1) bp' ts with
+              | error e' =>
+                rw [hr] at h1
+                cases e' <;> simp only [Agrees] at h1 ⊢ <;> simp [h1]
+              | ok v =>
+                obtain ⟨⟨e1, d1⟩, r1⟩ := v
+                rw [hr] at h1
+                simp only [Agrees] at h1
+                obtain ⟨hu, hd1, hle1⟩ := h1
+                simp only [hu]
+                cases hx2 : depthExceeded (max d d1 + 1) with
+                | true => simp [Agrees]
+                | false =>
+                  simp only [Bool.false_eq_true, if_false]
+                  have := depthExceeded_false hx2
+                  exact ihL n bp (.or e e1) (max d d1 + 1) r1 (by simp [Expr.depth, hd, hd1])
+                    (by simpa [Expr.depth, hd, hd1] using this)
+        · simp only [parseLoop, parseLoopU, List.length_cons]; exact post .optional ts (fun _ => rfl)
+        · simp only [parseLoop, parseLoopU, List.length_cons]; exact post .oneOrMore ts (fun _ => rfl)
+        · simp only [parseLoop, parseLoopU, List.length_cons]; exact post .zeroOrMore ts (fun _ => rfl)
+
+/-- agreement of the top-level loops -/
+def AgreesTop (r u : Except PErr (List Expr)) : Prop :=
+  match r with
+  | .error (.tooDeep _) => True
+  | .error e => u = .error e
+  | .ok es => u = .ok es ∧ ∀ e ∈ es, e.depth ≤ MAX_EXPRESSION_DEPTH
+
+theorem parseTop_agrees : ∀ (f : Nat) (toks : List Tok) (acc : List Expr),
+    (∀ e ∈ acc, e.depth ≤ MAX_EXPRESSION_DEPTH) → AgreesTop (parseTop f toks acc) (parseTopU f toks acc) := by
+  intro f
+  induction f with
+  | zero => intros; simp [parseTop, parseTopU, AgreesTop]
+  | succ f ih =>
+    intro toks acc hacc
+    have key : AgreesTop
+        (match parseExpr (toks.length + 1) TOP_NESTING NO_BIND_POWER toks with
+          | .error e => (.error e : Except PErr (List Expr))
+          | .ok ((e, _), rest) => parseTop f rest (e :: acc))
+        (match parseExprU (toks.length + 1) NO_BIND_POWER toks with
+          | .error e => (.error e : Except PErr (List Expr))
+          | .ok (e, rest) => parseTopU f rest (e :: acc)) := by
+      have h1 := (parse_agrees (toks.length + 1)).1 TOP_NESTING NO_BIND_POWER toks
+      cases hr : parseExpr (toks.length + 1) TOP_NESTING NO_BIND_POWER toks with
+      | error e =>
+        rw [hr] at h1
+        cases e <;> simp only [Agrees] at h1 <;> simp [AgreesTop, h1]
+      | ok v =>
+        obtain ⟨⟨e1, d1⟩, r1⟩ := v
+        rw [hr] at h1
+        simp only [Agrees] at h1
+        obtain ⟨hu, -, hle⟩ := h1
+        simp only [hu]
+        exact ih r1 (e1 :: acc) (by
+          intro x hx
+          rcases List.mem_cons.mp hx with rfl | hx
+          · exact hle
+          · exact hacc x hx)
+    cases toks with
+    | nil => simp [parseTop, parseTopU, parseExpr, parseExprU, AgreesTop]
+    | cons t ts =>
+      cases t <;> simp only [parseTop, parseTopU] <;> try exact key
+      split
+      · simp only [AgreesTop, true_and]
+        intro e he
+        exact hacc e (List.mem_reverse.mp he)
+      · simp [AgreesTop]
+
+theorem parseTokens_agrees (toks : List Tok) : AgreesTop (parseTokens toks) (parseTokensU toks) :=
+  parseTop_agrees _ _ _ (by simp)
 
 /-! ## 5. lexer: whitespace between tokens is irrelevant -/
 
@@ -1438,5 +1646,38 @@ theorem middleHops_len : ∀ (l : List Iface) (hs : List Hop) (last : Iface),
       · simp only [Except.ok.injEq, Prod.mk.injEq] at h
         have := middleHops_len rest hs' l' hr
         simp [← h.1]; omega
+
+/-- the middle of `hops_from_path`: the interfaces after the first are consecutive (ingress, egress) pairs of one
+    AS each, followed by one last interface; each pair gives one hop -/
+theorem middleHops_pairs : ∀ (l : List Iface) (hs : List Hop) (last : Iface),
+    middleHops l = .ok (hs, last) →
+      ∃ pairs : List (Iface × Iface),
+        l = pairs.flatMap (fun ab => [ab.1, ab.2]) ++ [last] ∧
+        (∀ ab ∈ pairs, ab.1.isd = ab.2.isd ∧ ab.1.asn = ab.2.asn) ∧
+        hs = pairs.map (fun ab => ⟨ab.1.isd, ab.1.asn, ab.1.id, ab.2.id⟩)
+  | [], _, _, h => by simp [middleHops] at h
+  | [x], hs, last, h => by
+    simp only [middleHops, Except.ok.injEq, Prod.mk.injEq] at h
+    exact ⟨[], by simp [h.2], by simp, by simp [← h.1]⟩
+  | a :: b :: rest, hs, last, h => by
+    simp only [middleHops] at h
+    cases hr : middleHops rest with
+    | error e => simp [hr] at h
+    | ok v =>
+      obtain ⟨hs', l'⟩ := v
+      simp only [hr] at h
+      split at h
+      · simp at h
+      · rename_i hsame
+        simp only [Except.ok.injEq, Prod.mk.injEq] at h
+        obtain ⟨pairs, hl, hp, hh⟩ := middleHops_pairs rest hs' l' hr
+        refine ⟨(a, b) :: pairs, ?_, ?_, ?_⟩
+        · rw [hl, ← h.2]; simp
+        · intro ab hab
+          rcases List.mem_cons.mp hab with rfl | hab
+          · simp only [not_or, Decidable.not_not] at hsame
+            exact hsame
+          · exact hp ab hab
+        · rw [← h.1, hh]; simp
 
 end ScionVerif.Policy
